@@ -97,7 +97,7 @@ CLAIMS = {
              "(C05_substring_ascii: substring_match_ascii succeeds iff the needle occurs contiguously in the normalized haystack and its first reported index is the leftmost "
              "occurrence whose first character earns the highest bonus - acceptance test = occurrence for every prefilter shape the code selects, scan invariant, the specification's "
              "fold characterised; its one-character instance is C04_one_char_optimum_ascii) and for code-point haystacks (C05_substring_unicode: substring_match_non_ascii behind the "
-             "non-ASCII prefilter, needles of at least two characters, no normalisation hypothesis; the one-character instance is C04_one_char_optimum_unicode); at the substring_match "
+             "non-ASCII prefilter, needles of at least two characters, no normalisation hypothesis; the one-character instance is C04_one_char_optimum_unicode; the decision for one-character needles through substring_match itself - substring_match_1_ascii, substring_match_1_non_ascii behind the greedy-only prefilter and the equal-length shortcut - is companion file C05_OneChar: C05_substring_one_char); at the substring_match "
              "entry point (companion file C05_Entry) every branch of the dispatch - needle longer than the haystack, equal lengths, the ASCII scan, the code-point scan behind its "
              "prefilter - decides 'the needle occurs contiguously in the normalized haystack' (C05_substring_entry_ascii / _unicode, needles of at least two characters). K1 is a KNOWN-FINDING."),
     "C10": dict(
@@ -123,7 +123,7 @@ CLAIMS = {
 CLAIMS.update({
     "C14": dict(
         technique="Lean 4 theorems about the parser model (markers, splitting, escape grammar) + exhaustive/random model-implementation correspondence with grammar oracles",
-        text="Theorems. C14_one_grammar (companion file C14_OneGrammar): both bodies of Atom::new_inner - the byte path with split(\"\\ \")/to_ascii_lowercase/"
+        text="Atom::parse itself is translated from the source on every run (Gen/Parse.lean: its three matches on atom.as_bytes(), the kind of a negated fuzzy atom, the new_inner call) and proved to be the model's parseAtom (companion file C14_ParseTranslated, from C07_ParseTranslated), so the theorems below speak about the parser the code has. Theorems. C14_one_grammar (companion file C14_OneGrammar): both bodies of Atom::new_inner - the byte path with split(\"\\ \")/to_ascii_lowercase/"
              "is_ascii_uppercase and the grapheme loop with its saw_backslash state machine, the case-folding table and the normalization tables - compute ONE function "
              "(atomSpec) of the text's characters: needle = replaceEscSpace of the characters (every backslash-space becomes a space, every other backslash stays), lower-cased "
              "when case is ignored; smart case = no upper-case character; smart normalization = no character normalization would change (vacuous on ASCII) - for every text, "
@@ -145,7 +145,7 @@ CLAIMS.update({
              "non-increasing score order with equal scores kept in input order; a multi-column pattern (MultiPattern::score, companion file C15_Multi) matches iff every column's pattern "
              "matches that column's text - column k against text k whether or not other columns are empty - and its score is the sum of the columns' scores (C15_multi, "
              "C15_multi_empty_column), an all-empty multi-column pattern gives every item score 0 (C15_multi_all_empty; C15_empOk discharges the hypothesis EmpOk of the worker-protocol theorems of C06 / C07 "
-             "for the scoring function the worker uses). Tied to the code by correspondence on random patterns sharing one Matcher, and on MultiPatterns of 1-3 columns in which every subset of the columns has a pattern.",
+             "for the scoring function the worker uses); what one atom decides is a theorem for all five kinds at once (companion file C15_AtomDecision: C15_atom_decision - the matcher call of a fuzzy / substring / prefix / postfix / exact atom succeeds exactly when the predicate kindDec holds of the normalized haystack, collecting the decision theorems of C01 and C05 including one-character substring needles). Tied to the code by correspondence on random patterns sharing one Matcher, and on MultiPatterns of 1-3 columns in which every subset of the columns has a pattern.",
         note="Trusted: Lean kernel, axioms propext/Classical.choice/Quot.sound, harness+driver; the matcher calls are those of C01-C05 (same model). MultiPattern::score is modelled (multiEval) and compared on the N lines; the worker's use of it is covered by the nucleo-level checks."),
     "C08": dict(
         technique="Lean 4 inductive invariant over all interleavings of a small-step model at atomic-operation granularity + replay of real seeded schedules on the model",
@@ -197,7 +197,7 @@ CLAIMS.update({
     "C07": dict(
         technique="Lean 4 theorems (append-shortcut decision rule; worker-level convergence from the run contracts: bookkeeping survives every run, rebuilding runs repair, incremental runs preserve, quiescent = from scratch) + end-to-end comparison of every quiescent history with a fresh Nucleo",
         text="Theorems: the Update shortcut is taken only for a truthful append onto a column not already due for a rescore whose last atom is positive, not "
-             "postfix/exact, does not end in a backslash and (unless fuzzy) not in an escaped dollar (repair of F9), and which keeps normalizing the haystack if it did (repair of F16); can_append_to and the status decision of MultiPattern::reparse (both ifs, with the repair of F16) are translated from src/pattern.rs on every run and proved to be the model's rule (companion file C07_Translated); with decided witnesses that each excluded class is not a "
+             "postfix/exact, does not end in a backslash and (unless fuzzy) not in an escaped dollar (repair of F9), and which keeps normalizing the haystack if it did (repair of F16); can_append_to and the status decision of MultiPattern::reparse (both ifs, with the repair of F16) are translated from src/pattern.rs on every run and proved to be the model's rule (companion file C07_Translated), and so is Atom::parse (companion file C07_ParseTranslated: the matches of Atom::parse are the model's stripNeg / stripKind / stripDollar); with decided witnesses that each excluded class is not a "
              "narrowing; appending text changes only the last atom (companion file C07_Append: the splitter is a left-to-right scan with one bit of state, so every piece of the old "
              "text but the last is a piece of the new text and the atoms parsed from them are the first atoms of the new pattern, unchanged and in order - "
              "C07_append_keeps_earlier_atoms; the narrowing property the shortcut needs therefore concerns the last atom alone, which is what can_append_to inspects; for the fuzzy kind and a fixed "
@@ -205,7 +205,7 @@ CLAIMS.update({
              "for n), and (companion file C07_Narrows) so it is for the two other admitted kinds, through the decision theorems of C05: C07_substring_append_narrows_ascii / _unicode "
              "(an occurrence of n ++ s is an occurrence of n) and C07_prefix_append_narrows; typing an upper-case letter onto a smart-case atom turns ignore_case off and still narrows (companion file C07_SmartCase: the case-insensitive haystack is the "
              "lower-cased case-sensitive one and the stored needle is its own lower case - fuzzy, substring and prefix atoms, C07_smart_case_flip_narrows_*); a change of the smart-normalization flag by the appended text narrows without case folding (companion file C07_NormFlip) but does NOT narrow under case folding (finding F16, repaired: characters whose case folding and "
-             "Latin normalization disagree; C07_normalization_flip_witness decides the witness in the model) - the repaired rule refuses the shortcut then (model normKept, C07_update_keeps_normalization), so the hypothesis Narrows of the protocol theorem is only needed for edits that keep the flag or drop ignore_case; companion file C07_Sublist gives the general form for fuzzy atoms (the old needle survives as a subsequence of the new one, with or without the case flip), and the 'narrow' stream checks on the parser model, for every generated ASCII edit that takes the shortcut, that the atom in the last atom's place has one of the narrowing shapes (subsequence / infix / prefix of the kind, `$` turning fuzzy into postfix and the others into exact, case folding only switched off, normalization unchanged) and on the real code that no haystack matches the new pattern without matching the old one; a cancelling tick always hands the worker the current pattern. Convergence at the level of the worker (companion file C07_Quiescent, on the run contracts "
+             "Latin normalization disagree; C07_normalization_flip_witness decides the witness in the model) - the repaired rule refuses the shortcut then (model normKept, C07_update_keeps_normalization), so the hypothesis Narrows of the protocol theorem is only needed for edits that keep the flag or drop ignore_case; for ASCII pattern text that hypothesis is a theorem end to end (companion files C07_AtomNarrows and C07_UpdateSound: C07_update_narrows_ascii - whenever the rule answers Update for t continued to t ++ s, every haystack matched by the pattern parsed from t ++ s is matched by the one parsed from t, through every stage of Atom::parse on continued text, changes of kind by a trailing $, an escaped \\$, the smart-case flip and one-character needles; it rests on C15_atom_decision, one decision predicate for all five kinds of atom); companion file C07_Sublist gives the general form for fuzzy atoms (the old needle survives as a subsequence of the new one, with or without the case flip), and the 'narrow' stream checks on the parser model, for every generated ASCII edit that takes the shortcut, that the atom in the last atom's place has one of the narrowing shapes (subsequence / infix / prefix of the kind, `$` turning fuzzy into postfix and the others into exact, case folding only switched off, normalization unchanged) and on the real code that no haystack matches the new pattern without matching the old one; a cancelling tick always hands the worker the current pattern. Convergence at the level of the worker (companion file C07_Quiescent, on the run contracts "
              "of C06_RunContract): the bookkeeping invariant survives every run, completed or cancelled at any point (BK_run); a completed rebuilding run (rescoring after a "
              "non-appended edit or restart, or the empty pattern) makes the match list right from any such state (C07_rescore_establishes, C07_any_run_then_rescore); completed "
              "incremental runs keep it right (C07_unchanged_preserves, C07_update_preserves - the latter needs exactly the narrowing property the Update rule is about); and a right "
@@ -241,7 +241,7 @@ CLAIMS.update({
              "whenever a run is in flight between ticks the flag is armed (C13_armed_between_ticks), a run notifies exactly when it was not cancelled and read a true flag "
              "(run_notifies_iff), hence a run that reads the flag while no tick is executing and is not cancelled does notify (C13_notified_outside_ticks) - which pins the defect "
              "to the window inside a tick between clearing and re-arming the flag. Every notify call of every history is predicted by "
-             "the model (pushes, extends and runs), so any other lost or spurious notification is a violation.",
+             "the model (pushes, extends and runs), so any other lost or spurious notification is a violation; and the last sentence of the property is an oracle clause of its own on the implementation: a push or extend - also one that was paused inside its fill callback while later pushes completed - that returns without a notify call after its items became visible is reported as such.",
         note=NU_NOTE),
     "C19": dict(
         technique="Lean 4 theorems over the protocol model for every lock outcome and run effect + history replay with before/after snapshots",
